@@ -4,6 +4,7 @@ package c02
 import (
 	"bytes"
 	"crypto"
+	"errors"
 	"crypto/sha256"
 	"crypto/x509"
 	"encoding/binary"
@@ -669,6 +670,14 @@ func checkCase(c Case) error {
 					continue
 				}
 				k := 1 + int(img[len(img)/2])%(int(whole.Size())/2)
+				if k%2 == 0 {
+					// before that, a verification on the same object that broke off: the reader delivered exactly those first
+					// k bytes and then failed. What that attempt had consumed must not count towards the next one
+					if okf, errf := a.Verify(cert, io.MultiReader(io.LimitReader(hashedStream(img), int64(k)), brokenReader{})); okf && errf == nil {
+						return fmt.Errorf("Authenticode.Verify reports success although the reader failed after %d of %d bytes", k, whole.Size())
+					}
+					hx.Class("signature_object_reused_after_a_verification_that_broke_off")
+				}
 				r := hashedStream(img)
 				r.Seek(int64(k), io.SeekStart)
 				hx.Class("signature_asked_about_a_reader_that_was_read_from_before")
@@ -692,6 +701,11 @@ func checkCase(c Case) error {
 	}
 	return nil
 }
+
+// brokenReader fails every Read.
+type brokenReader struct{}
+
+func (brokenReader) Read([]byte) (int, error) { return 0, errors.New("verif: injected read failure") }
 
 // appendRoute checks the same signed image reached through the other route the API offers: the image without
 // its table is parsed and the signature blobs are attached to that object with AppendSignature (how a detached
